@@ -313,6 +313,14 @@ where
             e_star
         };
 
+        #[cfg(feature = "verif_hooks")]
+        crate::verif::hit(if (v != 0) && (h <= (self.threshold() as f64)) {
+            crate::verif::Event::HllCountLinear
+        } else if e <= (5. * m) {
+            crate::verif::Event::HllCountBias
+        } else {
+            crate::verif::Event::HllCountRaw
+        });
         if h <= (self.threshold() as f64) {
             h as usize
         } else {
